@@ -61,6 +61,8 @@ Sub(a, b) ==
   ELSE CASE a.c = "func" -> a.sig = b.sig
          [] a.c = "type" -> a.id = b.id
          [] a.c = "rtype" -> a.desc = b.desc
+         \* a type item whose type is an item type (an exported function TYPE): equal types; never an item of that type
+         [] a.c = "tyof" -> Sub(a.t, b.t) /\ Sub(b.t, a.t)
          [] a.c = "inst" -> \A e \in DOMAIN b.ex :
                                e \in DOMAIN a.ex /\ Sub(a.ex[e], b.ex[e])
          [] a.c = "fn" -> /\ a.async = b.async
